@@ -1,54 +1,72 @@
 #!/usr/bin/env python3
-"""Sensitivity (mutation) protocol: applies a hand-made regression to /repo's working tree,
-runs the property's quick check, and reverts (git checkout). Never commits anything.
-usage: ./mutate.py <mutant-name>... | --list | --all [PID]"""
-import json, os, subprocess, sys, time
+"""Sensitivity (mutation) protocol: applies a hand-made regression to a scratch worktree of
+/repo's HEAD (outside /repo and /verif, removed afterwards), runs the property's quick check
+against it (VERIF_REPO mode of ./check) and reports CAUGHT / MISSED. /repo is never touched,
+so several mutants can be evaluated in parallel (-j N).
+usage: ./mutate.py [-j N] <mutant-name>... | --list | --all [PID]"""
+import json, os, shutil, subprocess, sys, time, hashlib
+from concurrent.futures import ThreadPoolExecutor
 ROOT = os.path.dirname(os.path.abspath(__file__))
 sys.path.insert(0, ROOT)
 from mutants_cfg import MUTANTS
 
-def apply(m):
-    for f, old, new in m["edits"]:
-        p = os.path.join("/repo", f)
-        s = open(p).read()
-        if s.count(old) != 1:
-            raise SystemExit("mutant %s: pattern occurs %d times in %s" % (m["name"], s.count(old), f))
-        open(p, "w").write(s.replace(old, new))
+GOENV = dict(os.environ, GOFLAGS="-mod=mod", GOPROXY="off", GOSUMDB="off", GOTOOLCHAIN="local")
 
-def revert():
-    subprocess.run(["git", "-C", "/repo", "checkout", "--", "."], check=True)
+
+def run_one(m, pid):
+    wt = "/tmp/seedwork/mut_%s_%s" % (m["name"], pid)
+    subprocess.run(["git", "-C", "/repo", "worktree", "remove", "--force", wt], stdout=subprocess.DEVNULL, stderr=subprocess.DEVNULL)
+    os.makedirs("/tmp/seedwork", exist_ok=True)
+    p = subprocess.run(["git", "-C", "/repo", "worktree", "add", "--detach", wt, "HEAD"], stdout=subprocess.PIPE, stderr=subprocess.STDOUT)
+    if p.returncode != 0:
+        return (m["name"], pid, "ERROR", 0, p.stdout.decode()[-300:])
+    try:
+        for f, old, new in m["edits"]:
+            fp = os.path.join(wt, f)
+            s = open(fp).read()
+            if s.count(old) != 1:
+                return (m["name"], pid, "STALE", 0, "pattern occurs %d times in %s" % (s.count(old), f))
+            open(fp, "w").write(s.replace(old, new))
+        b = subprocess.run(["go", "build", "./..."], cwd=wt, env=GOENV, stdout=subprocess.PIPE, stderr=subprocess.STDOUT)
+        if b.returncode != 0:
+            return (m["name"], pid, "NOCOMPILE", 0, b.stdout.decode()[-300:])
+        t0 = time.time()
+        p = subprocess.run([os.path.join(ROOT, "check"), pid, "quick"], cwd=ROOT, env=dict(os.environ, VERIF_REPO=wt), stdout=subprocess.PIPE, stderr=subprocess.STDOUT)
+        out = p.stdout.decode()
+        verdict = "CAUGHT" if p.returncode == 1 and "VIOLATION property=%s" % pid in out else ("INCONCLUSIVE" if p.returncode == 2 else "MISSED")
+        det = [l for l in out.splitlines() if "violation detail" in l][:1]
+        return (m["name"], pid, verdict, time.time() - t0, det[0][:300] if det else "")
+    finally:
+        subprocess.run(["git", "-C", "/repo", "worktree", "remove", "--force", wt], stdout=subprocess.DEVNULL, stderr=subprocess.DEVNULL)
+        shutil.rmtree(wt, ignore_errors=True)
+        h = hashlib.sha1(os.path.realpath(wt).encode()).hexdigest()[:10]
+        shutil.rmtree(os.path.join(ROOT, "out", "alt", h), ignore_errors=True)
+
 
 def main():
     names = sys.argv[1:]
+    jobs = 1
+    if names and names[0] == "-j":
+        jobs = int(names[1]); names = names[2:]
     if names and names[0] == "--list":
         for m in MUTANTS: print(m["name"], m["props"])
         return
     if names and names[0] == "--all":
         pid = names[1] if len(names) > 1 else None
         names = [m["name"] for m in MUTANTS if pid is None or pid in m["props"]]
-    st = subprocess.run(["git", "-C", "/repo", "status", "--porcelain"], stdout=subprocess.PIPE).stdout.decode().strip()
-    if st:
-        raise SystemExit("/repo working tree not clean:\n" + st)
-    res = []
+    work = []
     for n in names:
         m = next(x for x in MUTANTS if x["name"] == n)
         for pid in m["props"]:
-            try:
-                apply(m)
-                # must still compile
-                b = subprocess.run(["go", "build", "./..."], cwd="/repo", stdout=subprocess.PIPE, stderr=subprocess.STDOUT)
-                if b.returncode != 0:
-                    print("MUTANT DOES NOT COMPILE", n, b.stdout.decode()[-500:]); res.append((n, pid, "nocompile", 0)); continue
-                t0 = time.time()
-                p = subprocess.run([os.path.join(ROOT, "check"), pid, "quick"], cwd=ROOT, stdout=subprocess.PIPE, stderr=subprocess.STDOUT)
-                out = p.stdout.decode()
-                verdict = "CAUGHT" if p.returncode == 1 and "VIOLATION property=%s" % pid in out else ("INCONCLUSIVE" if p.returncode == 2 else "MISSED")
-                det = [l for l in out.splitlines() if "violation detail" in l][:1]
-                print("%-40s %s %-12s %.0fs %s" % (n, pid, verdict, time.time() - t0, det[0][:300] if det else ""), flush=True)
-                res.append((n, pid, verdict, time.time() - t0))
-            finally:
-                revert()
+            work.append((m, pid))
+    res = []
+    with ThreadPoolExecutor(max_workers=jobs) as ex:
+        for r in ex.map(lambda w: run_one(*w), work):
+            print("%-44s %s %-12s %4.0fs %s" % r, flush=True)
+            res.append(r)
+    os.makedirs(os.path.join(ROOT, "out"), exist_ok=True)
     json.dump(res, open(os.path.join(ROOT, "out", "mutation_last.json"), "w"))
+
 
 if __name__ == "__main__":
     main()
